@@ -27,6 +27,9 @@ const rule = "case = a module of generated packages accepted by `go build`: goge
 
 type Case struct {
 	Files map[string]string `json:"files"` // path relative to the module root
+	// TimeoutS, when positive, bounds the run of the linter on a saved case (cases that record a
+	// linter that does not terminate).
+	TimeoutS int `json:"timeout_s,omitempty"`
 }
 
 var (
@@ -362,7 +365,14 @@ func replayFile(t *testing.T, f, test string) {
 			ev.Infra("decode %s: %v", f, err)
 			return
 		}
-		msg, _, infra = evaluate(&c)
+		if c.TimeoutS > 0 {
+			save := lintTimeout
+			lintTimeout = time.Duration(c.TimeoutS) * time.Second
+			msg, _, infra = evaluate(&c)
+			lintTimeout = save
+		} else {
+			msg, _, infra = evaluate(&c)
+		}
 	}
 	if infra != "" {
 		ev.Infra("%s: %s", f, infra)
